@@ -155,6 +155,29 @@ Theorem C12_late_reply_race_witness :
 Proof. exact alias_witness. Qed.
 Print Assumptions C12_late_reply_race_witness.
 
+(* ---- time bound: no worker waits for another worker ---- *)
+(* In every state (reachable or not) the move each worker of the command in progress is waiting
+   to make - register and send, the return of SendFunc, its own timer, its clean-up - is enabled
+   by that worker's own state alone.  So all targets are sent to at once and all response timers
+   run side by side: together with C12_exactly_once_completes (time-outs alone complete every
+   command) a command completes one response timeout after its sends returned, whatever the
+   number of targets.  The harness measures exactly this on commands with hundreds of targets
+   (monitor codes 13, 14). *)
+Theorem C12_no_worker_waits_for_another : forall st k w ws t,
+  s_cur st = Some k -> nth_error (k_workers k) w = Some ws ->
+  nth_error (c_targets (k_cmd k)) w = Some t ->
+  match ws with
+  | WInit => enabled st (LRegister w) = true
+  | WReg _ => enabled st (LSendOk (c_id (k_cmd k)) w) = true /\
+              enabled st (LSendErr (c_id (k_cmd k)) w) = true
+  | WWait _ => enabled st (LTimeout (c_id (k_cmd k)) w) = true
+  | WFail _ => enabled st (LFailCleanup w) = true
+  | WTimedOut _ => enabled st (LTimeoutCleanup w) = true
+  | WFin => True
+  end.
+Proof. exact worker_moves_independent. Qed.
+Print Assumptions C12_no_worker_waits_for_another.
+
 (* ---- pending is clean ---- *)
 Theorem C12_pending_owned : forall sched id t c,
   In ((id, t), c) (s_pending (run sched)) ->
